@@ -49,6 +49,8 @@ func cmdCheck(args []string) int {
 			e.workers, _ = strconv.Atoi(args[i])
 		case "-noaccel":
 			e.noAccel = true
+		case "-noguess":
+			e.noGuess = true
 		case "-noslice":
 			e.noSlice = true
 		case "-noifconv":
